@@ -40,8 +40,12 @@ package qtransform
 //@   props C07
 //@   requires [wired] ctrl != nil && r != nil
 //@   at WriterModify #1
-//@     assert [input-finalizer-before-output] (exists k int :: 0 <= k && k < len(mdOf(in).fins) && mdOf(in).fins[k] == ctrl.ControllerName) ||
-//@       (finOK && finPtr.blk == mdOf(in).blk && finPtr.off == mdOf(in).off)
+//@     assert [input-finalizer-before-output] mdOf(in).phase == 0 ==> ((exists k int :: 0 <= k && k < len(mdOf(in).fins) && mdOf(in).fins[k] == ctrl.ControllerName) ||
+//@       (finOK && finPtr.blk == mdOf(in).blk && finPtr.off == mdOf(in).off))
+// Same obligation for an input that is reconciled as running although it is tearing down (the
+// ignore-teardown options); recorded as finding F9 in /verif/known_findings.txt.
+//@     assert [input-finalizer-before-output-when-teardown-ignored] mdOf(in).phase != 0 ==> ((exists k int :: 0 <= k && k < len(mdOf(in).fins) && mdOf(in).fins[k] == ctrl.ControllerName) ||
+//@       (finOK && finPtr.blk == mdOf(in).blk && finPtr.off == mdOf(in).off))
 //@ func (*QController[Input, Output]).reconcileRunning$1
 //@   props C07
 //@   requires [wired] ctrl != nil && ctrl.transformFunc != nil
